@@ -93,7 +93,7 @@ def run(pid, tier):
                 "phantom": rng.random() < 0.4, "pool": rng.random() < 0.3,
                 "tpool": rng.choice(["none", "none", "P", "Z", "Q"])} for _ in range(n)]
         recs.append(run_case(f"r{k}", lst))
-    rd = check_raire.reader_records(rng, 100 if tier == "quick" else 1500)
+    rd = check_raire.reader_records(rng, 150 if tier == "quick" else 1500, repeats=True)
     for r in rd:
         r.pop("raire_reader", None)
     recs += rd
